@@ -114,7 +114,12 @@ func c19capword(name string, n int) (string, string) {
 	lb := make([]byte, n)
 	lb[0] = w[0] + ('a' - 'A')
 	for i := 1; i < n; i++ {
-		zzverif.Assume(zzverif.InRange(w[i], 'a', 'z'))
+		if i == n-1 && n >= 3 {
+			// words are [a-z][a-z0-9]*: the last character may be a digit (Sha2, Base64, ...)
+			zzverif.Assume(zzverif.Or(zzverif.InRange(w[i], 'a', 'z'), zzverif.InRange(w[i], '0', '9')))
+		} else {
+			zzverif.Assume(zzverif.InRange(w[i], 'a', 'z'))
+		}
 		lb[i] = w[i]
 	}
 	return w, string(lb)
